@@ -36,6 +36,7 @@ type Assume struct {
 }
 
 type Oblig struct {
+	Retried bool // discharged only in the second, longer attempt
 	Name   string
 	Kind   string
 	Fn     string
